@@ -201,6 +201,11 @@ def run(ck):
     import importlib as _il
     _m = lambda n: _il.import_module('props.' + n)
     _c7.import_results(ck, _m("C14"), "5", "EventIterator", "6")  # sub-tokens belong to their source: attributed by (slot, generation), not by the full token
+    # ---- shared clauses demonstrated by seeding round 8 (the property broken by added code) --------------------
+    from props import common as _c8
+    import importlib as _il8
+    _m8 = lambda n: _il8.import_module('props.' + n)
+    _c8.import_results(ck, _m8("C16"), "3", "Generic", "6")  # every re-registration draws its sub-token and hands it to the poller (no unchanged-registration shortcut keeps an old sub-id)
 
 
 def coverage_extra(checks):
